@@ -134,6 +134,17 @@ func genProgram(r *verifsim.Rng) (src, expect string, parts []string) {
 		case k < 5:
 			parts = append(parts, fmt.Sprintf("jsondec|%d|%s", i, strings.Join(pickNames(r, 2+r.Intn(5)), ",")))
 		case k < 6:
+			if r.Intn(2) == 0 {
+				// an associative array edited by a sequence of unset / overwrite / add
+				names := pickNames(r, 4+r.Intn(6))
+				var ops []string
+				for e := 0; e < 1+r.Intn(4); e++ {
+					n := names[r.Intn(len(names))]
+					ops = append(ops, verifsim.Pick(r, []string{"u", "u", "s", "a"})+":"+n)
+				}
+				parts = append(parts, fmt.Sprintf("mutate|%d|%s|%s", i, strings.Join(names[:len(names)-2], ","), strings.Join(ops, ",")))
+				break
+			}
 			parts = append(parts, fmt.Sprintf("arr|%d|%s", i, strings.Join(pickNames(r, 2+r.Intn(5)), ",")))
 		default:
 			parts = append(parts, fmt.Sprintf("arrfn|%d|%d", i, r.Intn(len(arrFns))))
@@ -218,6 +229,52 @@ func assemble(parts []string) (string, string) {
 			if have("array_keys", "implode") {
 				fmt.Fprintf(&b, "echo \"arrkeys%s=\", implode(\",\", array_keys($arr%s)), \"\\n\";\n", i, i)
 				fmt.Fprintf(&e, "arrkeys%s=%s\n", i, strings.Join(names, ","))
+			}
+		case "mutate":
+			// reference model of array order: insertion order; overwriting keeps
+			// the position; unset removes; adding an absent key appends
+			fmt.Fprintf(&b, "$mu%s = [%s];\n", i, pairs(", ", "%q => %d"))
+			type kv struct {
+				k string
+				v int
+			}
+			var model []kv
+			for k, n := range names {
+				model = append(model, kv{n, k + 1})
+			}
+			for e, op := range strings.Split(f[3], ",") {
+				kind, key, _ := strings.Cut(op, ":")
+				pos := -1
+				for j := range model {
+					if model[j].k == key {
+						pos = j
+					}
+				}
+				switch kind {
+				case "u":
+					fmt.Fprintf(&b, "unset($mu%s[%q]);\n", i, key)
+					if pos >= 0 {
+						model = append(model[:pos], model[pos+1:]...)
+					}
+				default: // "s" overwrite or "a" add: same statement, the model decides
+					fmt.Fprintf(&b, "$mu%s[%q] = %d;\n", i, key, 100+e)
+					if pos >= 0 {
+						model[pos].v = 100 + e
+					} else {
+						model = append(model, kv{key, 100 + e})
+					}
+				}
+			}
+			var es, js []string
+			for _, m := range model {
+				es = append(es, fmt.Sprintf("%s:%d,", m.k, m.v))
+				js = append(js, fmt.Sprintf("%q:%d", m.k, m.v))
+			}
+			fmt.Fprintf(&b, "echo \"mueach%s=\"; foreach ($mu%s as $k => $v) { echo $k, \":\", $v, \",\"; } echo \"\\n\";\n", i, i)
+			fmt.Fprintf(&e, "mueach%s=%s\n", i, strings.Join(es, ""))
+			if len(model) > 0 {
+				fmt.Fprintf(&b, "echo \"mujson%s=\", json_encode($mu%s), \"\\n\";\n", i, i)
+				fmt.Fprintf(&e, "mujson%s={%s}\n", i, strings.Join(js, ","))
 			}
 		case "arrfn":
 			idx := 0
